@@ -75,8 +75,11 @@ where
                 }
             }
         };
-        let writer = open_file_writer(filename, &config)?;
-        let result = self.to_json_writer(writer, compact);
+        //(no early return here: the mode has to be set back)
+        let result = match open_file_writer(filename, &config) {
+            Ok(writer) => self.to_json_writer(writer, compact),
+            Err(e) => Err(e),
+        };
         if let Type::TextResource | Type::AnnotationDataSet = Self::typeinfo() {
             //introspection to detect whether type can do @include
             config.set_serialize_mode(SerializeMode::AllowInclude); //set standoff mode, what we're about the write is the standoff file
